@@ -62,7 +62,8 @@ class Contract:
         self.pure_result = kw.get("pure_result", False)
         self.options = kw.get("options", {})
         self.ghost_after = kw.get("ghost_after", {})
-        self.lemma_after = kw.get("lemma_after", {})  # statement prefix -> [lemma clauses assumed right after that statement]
+        self.lemma_after = kw.get("lemma_after", {})
+        self.uses_ensures = kw.get("uses_ensures", {})  # callee qualname -> labels of its postconditions relied upon here  # statement prefix -> [lemma clauses assumed right after that statement]
 
     def key(self):
         return (self.file, self.qualname)
@@ -145,6 +146,11 @@ class Contract:
         for name, expr in self.lets.items():
             pst.env[name] = cst.env[name]
         labels = self.call_ensures if self.call_ensures is not None else list(self.ensures)
+        # the CALLER's contract may restrict which of this callee's postconditions it relies on (assuming fewer facts is always sound)
+        cur = getattr(interp.ctx, "current_contract", None)
+        uses = getattr(cur, "uses_ensures", {}).get(self.qualname) if cur is not None else None
+        if uses is not None:
+            labels = [lab for lab in labels if lab in uses]
         n_pc = len(st.pc)
         for lab in labels:
             c = reg.eval_clause(interp, pst, self.ensures[lab])
